@@ -257,6 +257,19 @@ impl Env {
         self.put_opt(k, len, false)
     }
 
+    /// put of an incompressible value
+    pub fn put_opt_raw(&self, k: i64, len: usize) -> bool {
+        let vid = self.fresh_vid();
+        self.call("put", k, vec![[k, 1, vid]]);
+        let r = self.db.put(
+            WriteOptions::default(),
+            self.u.key(k).clone(),
+            Universe::make_value(vid, len, false),
+        );
+        self.ret(r.is_ok(), 0, None);
+        r.is_ok()
+    }
+
     /// put with `WriteOptions::synchronous` (a synchronous writer is never taken into the group
     /// of a non-synchronous leader)
     pub fn put_opt(&self, k: i64, len: usize, synchronous: bool) -> bool {
@@ -762,6 +775,23 @@ fn run_manual_rotate(sc: &Scenario, seed: u64, run_no: u64) -> SchedOutcome {
                 let _ = wait_quiescent(&db, Duration::from_secs(60));
             }
         }
+    } else if sc.script == "manual_late" {
+        // two generations of every key in different files, both KEPT (a snapshot in between),
+        // 300 incompressible bytes each: every round of the manual compaction writes two or
+        // three output tables of 600 bytes
+        for round in 0..2 {
+            for k in 1..=6 {
+                env.put_opt_raw(k, 300);
+                if k % 3 == 0 {
+                    let _ = db.verif_force_flush();
+                }
+            }
+            let _ = wait_quiescent(&db, Duration::from_secs(60));
+            if round == 0 {
+                // (never released: the scenario leaks the database handle's snapshot list with it)
+                std::mem::forget(db.get_snapshot());
+            }
+        }
     } else {
         // two generations of every key in different files, so that the manual compaction is a
         // merge
@@ -777,11 +807,11 @@ fn run_manual_rotate(sc: &Scenario, seed: u64, run_no: u64) -> SchedOutcome {
         }
     }
     if sc.script == "manual_late" {
-        // (12 entries of about 200 bytes, 600-byte output files: the seventh pass through the
-        // loop comes after the second output was opened)
+        // (six entries of about 300 bytes per round, 600-byte output files: at the fifth pass
+        // through the loop the first output is finished and the second one at least opened)
         ctl.arm_next(BG, "compact_loop");
         let seen = ctl.hits(BG, "compact_loop");
-        ctl.arm(BG, "compact_loop", seen + 7);
+        ctl.arm(BG, "compact_loop", seen + 5);
     } else {
         ctl.arm_next(BG, "compact_loop");
     }
